@@ -396,8 +396,10 @@ class LSMTree(Entity):
                     return None
                 return value
 
-        # Check each level, L0 first (most recent)
-        for level in self._levels:
+        # Check each level, L0 first (most recent). Iterate over a snapshot of
+        # the levels: a flush or compaction may change them while this read is
+        # suspended in its I/O latency.
+        for level in [list(lv) for lv in self._levels]:
             # L0: check all SSTables (may have overlapping key ranges)
             for sstable in reversed(level):
                 self._total_sstables_checked += 1
@@ -481,8 +483,9 @@ class LSMTree(Entity):
                 if start_key <= k < end_key and k not in merged:
                     merged[k] = v
 
-        # Collect from SSTables (newer levels first)
-        for level in self._levels:
+        # Collect from SSTables (newer levels first). Iterate over a snapshot of
+        # the levels: they may change while this scan is suspended.
+        for level in [list(lv) for lv in self._levels]:
             for sstable in reversed(level):
                 page_reads = sstable.page_reads_for_scan(start_key, end_key)
                 if page_reads > 0:
